@@ -446,6 +446,46 @@ func bufferCheckSig(policy func(int, []int) int, blockSig string) func(r *vrt.Re
 		if len(r.Panics) > 0 {
 			return fmt.Sprintf("panic: %s in T%s", r.Panics[0].Msg, r.Panics[0].Thread)
 		}
+		// C12: once Buffer.Close / consumer.Close has returned, later Put / NewConsumer / Get /
+		// Commit fail (they neither succeed, block nor panic)
+		{
+			ops := opsFromEvents(r.Events)
+			var bufClosed int64
+			consClosed := map[int]int64{}
+			for _, o := range ops {
+				if o.pending || errOf(o.res, 0) {
+					continue
+				}
+				if o.kind == "CloseB" && (bufClosed == 0 || o.ret < bufClosed) {
+					bufClosed = o.ret
+				}
+				if o.kind == "CloseC" && (consClosed[o.obj] == 0 || o.ret < consClosed[o.obj]) {
+					consClosed[o.obj] = o.ret
+				}
+			}
+			for _, o := range ops {
+				if o.pending {
+					continue
+				}
+				after := bufClosed != 0 && o.call > bufClosed
+				if cc := consClosed[o.obj]; o.obj >= 0 && cc != 0 && o.call > cc {
+					after = true
+				}
+				if !after {
+					continue
+				}
+				switch o.kind {
+				case "Put", "New", "Commit":
+					if !errOf(o.res, 0) && (o.kind != "Put" && o.kind != "New" || bufClosed != 0 && o.call > bufClosed) {
+						return fmt.Sprintf("close-later-call: %s was called after Close had returned and did not fail", o)
+					}
+				case "Get":
+					if !errOf(o.res, 1) {
+						return fmt.Sprintf("close-later-call: %s was called after Close had returned and did not fail", o)
+					}
+				}
+			}
+		}
 		if m := lin(r); m != "" {
 			return m
 		}
